@@ -532,7 +532,109 @@ fn reparse(kind: &str, text: &str) -> Result<Value, String> {
     }
 }
 
+/// the same item with every other scalar term (outside sets and map keys) replaced by a parameter `{bN}`, and the
+/// terms the parameters stand for: binding them must print the item's own text
+fn parametrise(v: &mut Value, binds: &mut Vec<(String, Value)>, count: &mut usize) {
+    const SCALARS: [&str; 6] = ["int", "str", "date", "bytes", "bool", "null"];
+    if let Some(o) = v.as_object() {
+        if o.len() == 1 {
+            let k = o.keys().next().unwrap().clone();
+            if SCALARS.contains(&k.as_str()) {
+                *count += 1;
+                if *count % 2 == 1 {
+                    let name = format!("b{}", binds.len());
+                    binds.push((name.clone(), v.clone()));
+                    *v = json!({"param": name});
+                }
+                return;
+            }
+            if k == "set" || k == "var" || k == "param" {
+                return;
+            }
+            if k == "map" {
+                for kv in v["map"].as_array_mut().unwrap() {
+                    parametrise(&mut kv[1], binds, count);
+                }
+                return;
+            }
+        }
+    }
+    match v {
+        Value::Array(a) => {
+            for x in a.iter_mut() {
+                parametrise(x, binds, count);
+            }
+        }
+        Value::Object(o) => {
+            for (k, x) in o.iter_mut() {
+                if k == "name" || k == "kind" || k == "scopes" || k == "un" || k == "bin" {
+                    continue;
+                }
+                parametrise(x, binds, count);
+            }
+        }
+        _ => {}
+    }
+}
+
+fn bound_text(kind: &str, item: &Value) -> Option<String> {
+    let mut it = item.clone();
+    let mut binds = vec![];
+    let mut count = 0;
+    parametrise(&mut it, &mut binds, &mut count);
+    if binds.is_empty() {
+        return None;
+    }
+    let r = std::panic::catch_unwind(std::panic::AssertUnwindSafe(|| match kind {
+        "fact" => {
+            let p = pred_b(&it);
+            let mut f = Fact::new(p.name, p.terms);
+            for (n, t) in binds.iter() {
+                f.set(n, term_b(t)).map_err(short)?;
+            }
+            Ok::<String, String>(f.to_string())
+        }
+        "rule" => {
+            let mut r = rule_b(&it);
+            for (n, t) in binds.iter() {
+                r.set(n, term_b(t)).map_err(short)?;
+            }
+            Ok(r.to_string())
+        }
+        "check" => {
+            let mut c = check_b(&it);
+            for (n, t) in binds.iter() {
+                c.set(n, term_b(t)).map_err(short)?;
+            }
+            Ok(c.to_string())
+        }
+        _ => {
+            let mut p = policy_b(&it);
+            for (n, t) in binds.iter() {
+                p.set(n, term_b(t)).map_err(short)?;
+            }
+            Ok(p.to_string())
+        }
+    }));
+    Some(match r {
+        Ok(Ok(t)) => t,
+        Ok(Err(e)) => format!("ERR: {e}"),
+        Err(e) => format!("PANIC: {}", panic_msg(e)),
+    })
+}
+
 pub fn run_case(case: &Value, keys: &Keys) -> Value {
+    let mut out = run_case_inner(case, keys);
+    let kind = case["kind"].as_str().unwrap_or("");
+    if ["fact", "rule", "check", "policy"].contains(&kind) && out.get("text").is_some() {
+        if let Some(t) = bound_text(kind, &case["item"]) {
+            out["bound_text"] = json!(t);
+        }
+    }
+    out
+}
+
+fn run_case_inner(case: &Value, keys: &Keys) -> Value {
     let kind = case["kind"].as_str().unwrap().to_string();
     let item = case["item"].clone();
     let r = std::panic::catch_unwind(std::panic::AssertUnwindSafe(|| match kind.as_str() {
